@@ -57,6 +57,7 @@ package evaluator
 //@   requires storeOK()
 //@   ensures[C02 store] storeOK()
 //@   ensures[C02 expr-value] err == nil && isExpr(node) ==> okValue(r)
+//@   ensures[C02 expr-kind] err == nil && isExpr(node) ==> valKind(r) == kind(node)
 //@   ensures[C02 return-value] err == nil && is(r, *returnVal) && r.(*returnVal).V != nil ==> okValue(r.(*returnVal).V)
 //@   ensures[C14 stopped] old(e.Stopped) ==> err == ErrStopped && r == nil && ncalls("(Yielder).Yield") == 0
 //@   ensures[C14 yields] !old(e.Stopped) && e.yielder != nil ==> ncalls("(Yielder).Yield") >= 1
@@ -326,3 +327,69 @@ package evaluator
 //@   loop 1 modifies newElements, newElements[*]
 //@   loop 1 invariant 0 <= rangeint_iter && rangeint_iter < repetitions && fresh(newElements) && len(newElements) == len(*left.Elements)*rangeint_iter && storeOK()
 //@   loop 1 invariant forall(j, int, 0 <= j && j < len(newElements) ==> fresh(newElements[j]) && okValue(newElements[j]))
+
+//@ func (e *Evaluator) evalIndexExpr(expr *parser.IndexExpression) (r value, err error)
+//@   props C11 C12 C01 C02 C10 C14
+//@   requires wf(parser.Node(expr)) && storeOK()
+//@   let lv = callres("(*Evaluator).eval", 1, 0)
+//@   let iv = callres("(*Evaluator).eval", 2, 0)
+//@   ensures[C02 store] storeOK()
+//@   ensures[C10 scope-restored] e.scope == old(e.scope)
+//@   ensures[C01 left-then-index] ncalls("(*Evaluator).eval") >= 1 && callarg("(*Evaluator).eval", 1, 1) == expr.Left && (ncalls("(*Evaluator).eval") == 2 ==> callarg("(*Evaluator).eval", 2, 1) == expr.Index) && ncalls("(*Evaluator).eval") <= 2
+//@   ensures[C11 array] err == nil && is(lv, *arrayVal) ==> ncalls("(*arrayVal).Index") == 1 && r == callres("(*arrayVal).Index", 1, 0) && callarg("(*arrayVal).Index", 1, 0).(*arrayVal) == lv.(*arrayVal) && callarg("(*arrayVal).Index", 1, 1) == iv
+//@   ensures[C11 string] err == nil && is(lv, *stringVal) ==> ncalls("(*stringVal).Index") == 1 && r == callres("(*stringVal).Index", 1, 0) && callarg("(*stringVal).Index", 1, 0).(*stringVal) == lv.(*stringVal) && callarg("(*stringVal).Index", 1, 1) == iv
+//@   ensures[C12 map] err == nil && is(lv, *mapVal) ==> ncalls("(*mapVal).Get") == 1 && r == callres("(*mapVal).Get", 1, 0) && callarg("(*mapVal).Get", 1, 0).(*mapVal) == lv.(*mapVal) && is(iv, *stringVal) && callarg("(*mapVal).Get", 1, 1).(string) == iv.(*stringVal).V
+//@   ensures[C11 C12 panic] err != nil && ncalls("(*Evaluator).eval") == 2 && pending() == nil ==> wraps(err, ErrPanic) || wraps(err, ErrInternal)
+//@   ensures[C02 value] err == nil ==> okValue(r)
+//@   ensures[C02 error-no-value] err != nil ==> r == nil
+//@   modifies allbut evalFrame
+//@   propagates (*Evaluator).eval
+
+//@ func (e *Evaluator) evalDotLeft(expr *parser.DotExpression) (m *mapVal, err error)
+//@   props C12 C10 C14 C02
+//@   requires wf(parser.Node(expr)) && storeOK()
+//@   ensures[C02 store] storeOK()
+//@   ensures[C10 scope-restored] e.scope == old(e.scope)
+//@   ensures[C12 map] err == nil ==> m != nil && is(callres("(*Evaluator).eval", 1, 0), *mapVal) && m == callres("(*Evaluator).eval", 1, 0).(*mapVal)
+//@   ensures[C01 operand] ncalls("(*Evaluator).eval") == 1 && callarg("(*Evaluator).eval", 1, 1) == expr.Left
+//@   ensures[C02 error-no-value] err != nil ==> m == nil
+//@   modifies allbut evalFrame
+//@   propagates (*Evaluator).eval
+
+//@ func (e *Evaluator) evalDotExpr(expr *parser.DotExpression) (r value, err error)
+//@   props C12 C10 C14 C02
+//@   requires wf(parser.Node(expr)) && storeOK()
+//@   ensures[C02 store] storeOK()
+//@   ensures[C10 scope-restored] e.scope == old(e.scope)
+//@   ensures[C12 lookup] err == nil ==> ncalls("(*mapVal).Get") == 1 && r == callres("(*mapVal).Get", 1, 0) && callarg("(*mapVal).Get", 1, 0).(*mapVal) == callres("(*Evaluator).evalDotLeft", 1, 0).(*mapVal) && callarg("(*mapVal).Get", 1, 1).(string) == expr.Key
+//@   ensures[C02 value] err == nil ==> okValue(r)
+//@   ensures[C02 error-no-value] err != nil ==> r == nil
+//@   modifies allbut evalFrame
+//@   propagates (*Evaluator).evalDotLeft
+
+//@ func (e *Evaluator) evalSliceExpr(expr *parser.SliceExpression) (r value, err error)
+//@   props C11 C01 C10 C14 C02
+//@   requires wf(parser.Node(expr)) && storeOK()
+//@   let lv = callres("(*Evaluator).eval", 1, 0)
+//@   ensures[C02 store] storeOK()
+//@   ensures[C10 scope-restored] e.scope == old(e.scope)
+//@   ensures[C01 left-first] ncalls("(*Evaluator).eval") >= 1 && callarg("(*Evaluator).eval", 1, 1) == expr.Left
+//@   ensures[C11 array] err == nil && is(lv, *arrayVal) ==> ncalls("(*arrayVal).Slice") == 1 && r == callres("(*arrayVal).Slice", 1, 0) && callarg("(*arrayVal).Slice", 1, 0).(*arrayVal) == lv.(*arrayVal)
+//@   ensures[C11 string] err == nil && is(lv, *stringVal) ==> ncalls("(*stringVal).Slice") == 1 && r == callres("(*stringVal).Slice", 1, 0) && callarg("(*stringVal).Slice", 1, 0).(*stringVal) == lv.(*stringVal)
+//@   ensures[C11 bounds-args] err == nil && is(lv, *arrayVal) ==> (expr.Start == nil ==> callarg("(*arrayVal).Slice", 1, 1) == nil) && (expr.End == nil ==> callarg("(*arrayVal).Slice", 1, 2) == nil) && (expr.Start != nil ==> callarg("(*arrayVal).Slice", 1, 1) == callres("(*Evaluator).eval", 2, 0))
+//@   ensures[C02 value] err == nil ==> okValue(r)
+//@   ensures[C02 error-no-value] err != nil ==> r == nil
+//@   modifies allbut evalFrame
+//@   propagates (*Evaluator).eval
+
+//@ func (e *Evaluator) evalTypeAssertion(ta *parser.TypeAssertion) (r value, err error)
+//@   props C02 C10 C14
+//@   requires wf(parser.Node(ta)) && storeOK()
+//@   let lv = callres("(*Evaluator).eval", 1, 0)
+//@   ensures[C02 store] storeOK()
+//@   ensures[C10 scope-restored] e.scope == old(e.scope)
+//@   ensures[C02 unwraps] err == nil ==> is(lv, *anyVal) && r == lv.(*anyVal).V && okValue(r)
+//@   ensures[C02 mismatch] err != nil && ncalls("(*Evaluator).eval") == 1 && pending() == nil ==> wraps(err, ErrAnyConversion)
+//@   ensures[C02 error-no-value] err != nil ==> r == nil
+//@   modifies allbut evalFrame
+//@   propagates (*Evaluator).eval
